@@ -1,7 +1,7 @@
 ---------------------------- MODULE MCSerClassic ----------------------------
 (* Bounded model of classic serialization (C15, C16, C29 at design level).    *)
-(* Function-style: every input of the bounded universe is an initial state,    *)
-(* the laws of SerClassic are the invariant, and each state prints one CASE    *)
+(* Function-style: every input of the bounded universe is one state, the laws  *)
+(* of SerClassic are the invariant, and each state prints one CASE             *)
 (* line (input + the outcome the specification assigns) that the Rust harness  *)
 (* replays into the real library (spec -> implementation).                     *)
 (*                                                                             *)
@@ -10,7 +10,7 @@
 (*   bytes   byte strings up to length 5 (+ structured longer prefixes)        *)
 (*   limit   trees of <= 5 nodes x every limit 0..len+1                        *)
 (*   prefix  length prefixes at every size-class boundary up to 2^34 (BigInt)  *)
-EXTENDS SerClassic, TLC, Json, IOUtils
+EXTENDS SerClassic, TLC, Json, IOUtils, SequencesExt
 
 VARIABLE c
 
@@ -32,7 +32,9 @@ Trees == IF Kind = "tree" THEN UNION { TreesL(n, AtomsT) : n \in 1..4 } ELSE {}
 
 \* limits: small trees, every L in 0..len+1
 AtomsL == { << >>, << 127 >>, << 128 >>, << 254, 255 >>, Rep(64, 7) }
-TreesLim == IF Kind = "limit" THEN UNION { TreesL(n, AtomsL) : n \in 1..3 } ELSE {}
+TreesLim == IF Kind # "limit" THEN {}
+            ELSE UNION { TreesL(n, AtomsL) : n \in 1..3 }
+                   \cup (IF Thorough THEN TreesL(4, AtomsL \ { Rep(64, 7) }) ELSE {})
 
 ---------------------------------------------------------------------------
 (* byte strings *)
@@ -75,8 +77,16 @@ Cases ==
     [] Kind = "limit" -> { [kind |-> "limit", t |-> t, L |-> L] : t \in TreesLim, L \in 0..202 }
     [] Kind = "prefix" -> { [kind |-> "prefix", n |-> n, fill |-> x, k |-> k] : n \in Sizes, x \in { 0, 128 }, k \in 0..7 }
 
-Init == c \in Cases
-Next == UNCHANGED c
+\* TLC computes initial states (and checks the invariant on them) with one thread, so the
+\* universe is handed out through NSeeds seed states: the successors of seed i are the i-th
+\* slice of the cases, and the workers evaluate the laws of different slices in parallel.
+CaseSeq == SetToSeq(Cases)
+NSeeds == 64
+Chunk == (Len(CaseSeq) + NSeeds - 1) \div NSeeds
+Init == c \in { [kind |-> "seed", i |-> i] : i \in 0..(NSeeds - 1) }
+Next == IF c.kind = "seed"
+        THEN \E j \in (c.i * Chunk + 1)..Min2((c.i + 1) * Chunk, Len(CaseSeq)) : c' = CaseSeq[j]
+        ELSE UNCHANGED c
 
 Emit(r) == PrintT(<< "CASE", ToJson(r) >>)
 
@@ -143,7 +153,8 @@ PrefixCase ==
                         canon |-> cn])
 
 Laws ==
-  CASE c.kind = "tree" -> TreeCase
+  CASE c.kind = "seed" -> TRUE
+    [] c.kind = "tree" -> TreeCase
     [] c.kind = "bytes" -> BytesCase
     [] c.kind = "limit" -> LimitCase
     [] c.kind = "prefix" -> PrefixCase
